@@ -129,7 +129,20 @@ static void caseC01(uint64_t idx, vh::Rng& g)
 	bool heavy = maxTuples(b) > 12;
 	bool viaText = g.chance(1, 4);   // a quarter of the cases go through the Timbuk loader (shared symbol names)
 	CaseAlphabet ca(al);
-	auto mk = [&](const RTA& x, const char* nm) { return viaText ? loadText<Aut>(rm::toTimbuk(x, al, nm)) : mkExpl(x, ca); };
+	// a fifth of the cases: operands are RESULTS of language-preserving operations (objects with a history);
+	// the reference verdict is unaffected
+	int derive = g.chance(1, 5) ? 1 + static_cast<int>(g.below(5)) : 0; if (derive) R->count("derived-operands");
+	auto mk = [&](const RTA& x, const char* nm) {
+		Aut r = viaText ? loadText<Aut>(rm::toTimbuk(x, al, nm)) : mkExpl(x, ca);
+		switch (derive)
+		{
+			case 1: return r.RemoveUselessStates();
+			case 2: return r.RemoveUnreachableStates();
+			case 3: return r.Reduce();
+			case 4: return Aut::Union(r, r);
+			case 5: { AutBase::StateToStateMap m; size_t c = 3; AutBase::StateToStateTranslWeak tr(m, [&c](const size_t&) { c += 2; return c; }); return r.ReindexStates(tr); }
+			default: return r;
+		} };
 	R->count(viaText ? "built:timbuk-text" : "built:AddTransition");
 	for (const Sel& s : SELS)
 	{
